@@ -140,10 +140,7 @@ func h01filterN(names []string, symbolic bool, lineOf []int, allPresent bool) {
 		cands = append(cands, &Match{Name: n, Variant: "v.txt", MatchType: "License", Confidence: cf,
 			StartLine: lineOf[s], EndLine: lineOf[e-1], StartTokenIndex: s, EndTokenIndex: e - 1})
 	}
-	if vxNative() {
-		return // the stubs below exist only under the engine
-	}
-	vxStub("github.com/google/licenseclassifier/v2.tokenizeStream", func(src io.Reader, normalize bool, dict *dictionary, updateDict bool) (*indexedDocument, error) {
+	stubTokenize := func(src io.Reader, normalize bool, dict *dictionary, updateDict bool) (*indexedDocument, error) {
 		d := &indexedDocument{dict: dict}
 		for i := 0; i < N; i++ {
 			d.Tokens = append(d.Tokens, indexedToken{Line: lineOf[i], ID: dict.getIndex("w1")})
@@ -152,25 +149,43 @@ func h01filterN(names []string, symbolic bool, lineOf []int, allPresent bool) {
 		d.runes = diffWordsToRunes(d, 0, d.size())
 		d.Norm = d.normalized()
 		return d, nil
-	})
-	vxStub("(*github.com/google/licenseclassifier/v2.Classifier).findPotentialMatches", func(c *Classifier, src, target *searchSet, confidence float64) matchRanges {
+	}
+	stubPotential := func(c *Classifier, src, target *searchSet, confidence float64) matchRanges {
 		w, ok := want[src.origin]
 		if !ok {
 			return nil
 		}
 		return matchRanges{{SrcStart: 0, SrcEnd: 12, TargetStart: w.start, TargetEnd: w.end, TokensClaimed: w.end - w.start}}
-	})
-	vxStub("(*github.com/google/licenseclassifier/v2.Classifier).score", func(c *Classifier, id string, unknown, known *indexedDocument, unknownStart, unknownEnd int) (float64, int, int) {
+	}
+	stubScore := func(c *Classifier, id string, unknown, known *indexedDocument, unknownStart, unknownEnd int) (float64, int, int) {
 		return want[id].conf, 0, 0
-	})
+	}
 	// token similarity of the stub document against the corpus documents must pass the pre-filter
-	vxStub("(*github.com/google/licenseclassifier/v2.indexedDocument).tokenSimilarity", func(d *indexedDocument, o *indexedDocument) float64 { return 1.0 })
-	r, err := c.match(nil)
-	for _, n := range []string{"github.com/google/licenseclassifier/v2.tokenizeStream",
-		"(*github.com/google/licenseclassifier/v2.Classifier).findPotentialMatches",
-		"(*github.com/google/licenseclassifier/v2.Classifier).score",
-		"(*github.com/google/licenseclassifier/v2.indexedDocument).tokenSimilarity"} {
-		vxUnstub(n)
+	stubSimilarity := func(d *indexedDocument, o *indexedDocument) float64 { return 1.0 }
+	var r Results
+	var err error
+	if vxNative() {
+		// native replay: the same stubs through the call-site wrappers of the overlaid copy of
+		// classifier.go (native_hooks.json); without that overlay there is nothing to replay
+		if !vxHooked {
+			return
+		}
+		vxHooks.tokenize, vxHooks.similarity, vxHooks.potential, vxHooks.score = stubTokenize, stubSimilarity, stubPotential, stubScore
+		r, err = c.match(nil)
+		vxHooks.tokenize, vxHooks.similarity, vxHooks.potential, vxHooks.score = nil, nil, nil, nil
+	} else {
+		names := []string{"github.com/google/licenseclassifier/v2.tokenizeStream",
+			"(*github.com/google/licenseclassifier/v2.Classifier).findPotentialMatches",
+			"(*github.com/google/licenseclassifier/v2.Classifier).score",
+			"(*github.com/google/licenseclassifier/v2.indexedDocument).tokenSimilarity"}
+		vxStub(names[0], stubTokenize)
+		vxStub(names[1], stubPotential)
+		vxStub(names[2], stubScore)
+		vxStub(names[3], stubSimilarity)
+		r, err = c.match(nil)
+		for _, n := range names {
+			vxUnstub(n)
+		}
 	}
 	vxAssert("no-error", err == nil)
 	ref := vxRefFilter(cands)
